@@ -533,8 +533,15 @@ fn parse_dist_header_with_cache<'a>(
     let flags_len = (num_atom_cache_refs as usize) / 2 + 1;
     let (mut input, flags) = take(flags_len)(input)?;
 
+    // the LongAtoms bit is bit 0 of flag field number `n`: the low half of the last flag
+    // byte when n is even, its high half when n is odd
     let long_atoms_flag_byte = flags[flags_len - 1];
-    let long_atoms = (long_atoms_flag_byte & 0x01) != 0;
+    let long_atoms_mask = if num_atom_cache_refs % 2 == 0 {
+        0x01
+    } else {
+        0x10
+    };
+    let long_atoms = (long_atoms_flag_byte & long_atoms_mask) != 0;
 
     for i in 0..num_atom_cache_refs {
         let (new_input, internal_segment_index) = be_u8(input)?;
